@@ -11,6 +11,7 @@ import (
 	"strings"
 	"sync"
 	"syscall"
+	"time"
 
 	"verif/engine/vsched"
 	"verif/engine/vsys"
@@ -575,6 +576,9 @@ func (s *SeqState) DoOp(op string) {
 	switch f[0] {
 	case "A":
 		s.Add(arg(1))
+	case "tick": // tick <seconds>: time passes
+		n, _ := strconv.Atoi(arg(1))
+		vsched.Advance(time.Duration(n) * time.Second)
 	case "AW": // AW <path> <hex op set>
 		v, _ := strconv.ParseUint(arg(2), 16, 32)
 		s.AddOps(arg(1), uint32(v))
